@@ -391,7 +391,7 @@ inline void supervise(const Part &part, const Options &opt, Agg &agg) {
   std::map<long long, int> timeouts;  // case -> number of firings
   double budget = part.cpuBudgetSec * opt.budgetScale;
   int respawns = 0;
-  const double kSoloFactor = 5;
+  const double kSoloFactor = 8;
   int confirmedHangs = 0;
   while (pos < todo.size()) {
     int fds[2];
